@@ -642,6 +642,13 @@ func sharedKinds(kinds []string) []string {
 	return out
 }
 
+// panicOK: F-panic stands for an internal failure inside the public API's recover
+// scope. The calls that walk the exported internal tree directly (no recover scope
+// around them, and nothing in them that can fail for any input) get no such fault.
+func panicOK(kind string) bool {
+	return kind != "ensureap" && kind != "inner" && kind != "vany"
+}
+
 func readOps(r *rng, obj int, kind string, min, max int) []Op {
 	return readOpsOf(r, obj, kind, scriptKinds(kind), min, max)
 }
@@ -784,8 +791,10 @@ func genWorldC10(seed uint64, faults bool) *World {
 		if faults && r.pct(12) && p.Kind == "jschema" {
 			// F-panic inside one operation of this object; it is the object's last
 			k := r.n(len(q))
-			q[k].PanicAt = 1 + r.n(60)
-			q = q[:k+1]
+			if panicOK(q[k].Kind) {
+				q[k].PanicAt = 1 + r.n(60)
+				q = q[:k+1]
+			}
 		}
 		queues = append(queues, q)
 	}
